@@ -1978,6 +1978,17 @@ func init() {
 								probs = append(probs, fmt.Sprintf("%s assigns an element of %s, a list of descriptors it did not create (%s)", shortKey(fi.Obj), exprText(w.Fset, ix.X), w.pos(x.Pos())))
 							}
 						}
+						// a field of a descriptor object (protogen.File/Service/Method/Message/Field/Enum/...) is never assigned
+						if sel, ok := l.(*ast.SelectorExpr); ok {
+							if t := info.TypeOf(sel.X); t != nil {
+								if p, isP := t.(*types.Pointer); isP {
+									t = p.Elem()
+								}
+								if nt, isN := types.Unalias(t).(*types.Named); isN && nt.Obj().Pkg() != nil && strings.HasSuffix(nt.Obj().Pkg().Path(), "compiler/protogen") && nt.Obj().Name() != "GeneratedFile" && nt.Obj().Name() != "Plugin" {
+									probs = append(probs, fmt.Sprintf("%s assigns %s, a field of a descriptor object shared by the whole invocation (%s)", shortKey(fi.Obj), exprText(w.Fset, l), w.pos(x.Pos())))
+								}
+							}
+						}
 					}
 				}
 				return true
@@ -1986,7 +1997,7 @@ func init() {
 		if sites == 0 {
 			probs = append(probs, "no in-place mutator call found in the generator packages (CombineHeaders and OrderedEnums sort): the rule would be vacuous")
 		}
-		return []OblResult{structResult("C15.inplace.own", "every sort / reverse / copy-into in the generator packages and plugin mains is applied to a slice created in the same function, and no element of a list of descriptors is assigned: descriptors, which all files, services and passes of an invocation share, are never reordered or rewritten", uniq(probs))}
+		return []OblResult{structResult("C15.inplace.own", "every sort / reverse / copy-into in the generator packages and plugin mains is applied to a slice created in the same function, no element of a list of descriptors and no field of a descriptor object is assigned: descriptors, which all files, services and passes of an invocation share, are never reordered or rewritten", uniq(probs))}
 	}
 }
 
